@@ -161,8 +161,9 @@ def szCmd (l : Limits) (ctor : String) (a : List Int) : Option SzR :=
   | "num_join", [n, y] => some (andThen (str y) fun r => stringJoin r (decLen n) l.maxString)
   | "repeat", [len, count] => some (andThen (str len) fun p => repeatString p count l.maxString)
   | "implode", [n, m, d] =>
+    -- (the LPC side fills a[0..n-1]: when the 16-bit size field wrapped, sizeof (a) < n and the fill loop errors)
     some (andThen (allocateArray n l.maxArray) fun cnt => andThen (str m) fun len => andThen (str d) fun dl =>
-      implodeString (cnt * len) cnt dl l.maxString)
+      if (cnt : Int) != n then .err else implodeString (cnt * len) cnt dl l.maxString)
   | "replace", [x, y, r] =>
     some (andThen (str x) fun p => andThen (repeatString 2 y l.maxString) fun q =>
       andThen (stringJoin p q l.maxString) fun _ => andThen (str r) fun rl =>
